@@ -175,8 +175,9 @@ template <typename NumericType>
   std::ostringstream stream;
   if (absolute < 1.0) {
     // Interval: [0, 1[
-    if (absolute < 0.001) {
-      // Interval: [0, 0.001[
+    if (std::fma(absolute, static_cast<NumericType>(1000), static_cast<NumericType>(-1)) < 0) {
+      // Interval: [0, 0.001[ (decimal thresholds below one are not representable in binary, so
+      // they are compared exactly through a fused multiply-add)
       if (absolute == 0.0) {
         // Interval: [0, 0]
         stream << 0;
@@ -187,9 +188,9 @@ template <typename NumericType>
       }
     } else {
       // Interval: [0.001, 1[
-      if (absolute < 0.1) {
+      if (std::fma(absolute, static_cast<NumericType>(10), static_cast<NumericType>(-1)) < 0) {
         // Interval: [0.001, 0.1[
-        if (absolute < 0.01) {
+        if (std::fma(absolute, static_cast<NumericType>(100), static_cast<NumericType>(-1)) < 0) {
           // Interval: [0.001, 0.01[
           stream << std::fixed
                  << std::setprecision(std::numeric_limits<NumericType>::max_digits10 + 3) << value;
